@@ -203,29 +203,62 @@ def run(ctx, cell):
         ctx.check(not it.environment.isDefined("run"), "C09:closure:run-bound-in-secure-mode")
         return [bad]
     if k == "sequence":
-        # a non-secure interpreter lives (and loads modules) in the same process BEFORE the secure one
+        # a non-secure interpreter lives (and loads modules) in the same process BEFORE the secure one.
+        # Process-global state is the subject, so every sequence runs in a fresh process.
         ctx.reach("closure")
-        pre = ["require IO", "require OS", "require Sys", "bind_native('file_input')", "def leak = file_input",
-               "require IO unqualified", "require OS import [execute]"]
-        unsec = Interpreter(False, bool(cell["first_legacy"]))
-        unsec.setStandardOutput(V.StringOutput())
-        guard(unsec.interpret, pre[cell["pre0"]], "pre")
-        if ctx.choice("second", 2):
-            guard(unsec.interpret, pre[ctx.choice("pre1", len(pre))], "pre")
-        it = Interpreter(True, bool(cell["legacy"]))
-        it.setStandardOutput(V.StringOutput())
-        progs = ["require IO", "require OS", "require IO unqualified", "require OS unqualified", "1"]
-        guard(it.interpret, progs[cell["prog"]], "secure")
-        bad = insecure_reachable(it)
-        ctx.check(not bad, "C09:sequence:secure-interpreter-reaches-os-functions-loaded-by-an-earlier-one",
-                  {"classes": bad})
-        for t in ("IO->file_input('/etc/hostname')", "OS->execute('true')", "file_input('/etc/hostname')",
-                  "IO->read_file('/etc/hostname')", "leak"):
-            o = guard(it.interpret, t, "secure")
-            ctx.check(o.kind != "ok" or o.value.isNull(), "C09:sequence:os-access-from-secure-interpreter[%s]" % t,
-                      {"result": str(o.value)})
-        return [bad]
+        second = ctx.choice("pre1", len(SEQ_PRE) + 1)
+        res = run_sequence_process(cell["first_legacy"], cell["legacy"], cell["pre0"], second, cell["prog"])
+        ctx.check(res.get("ok") is True, "C09:sequence:harness-process-failed", res)
+        if res.get("ok"):
+            ctx.check(not res["bad"], "C09:sequence:secure-interpreter-reaches-os-functions-loaded-by-an-earlier-one",
+                      {"classes": res["bad"]})
+            for t, kind in res["probes"].items():
+                ctx.check(kind != "ok", "C09:sequence:os-access-from-secure-interpreter[%s]" % t, res)
+        return [res.get("bad")]
     raise AssertionError(k)
+
+
+SEQ_PRE = ["require IO", "require OS", "require Sys", "bind_native('file_input')", "def leak = file_input",
+           "require IO unqualified", "require OS import [execute]"]
+SEQ_PROGS = ["require IO", "require OS", "require IO unqualified", "require OS unqualified", "1"]
+SEQ_PROBES = ("IO->file_input('/etc/hostname')", "OS->execute('true')", "file_input('/etc/hostname')",
+              "IO->read_file('/etc/hostname')", "leak", "OS->file_exists('/etc')", "list_dir('/')")
+
+
+def sequence_main(argv):
+    """runs inside a fresh /venv/bin/python process (pristine ckl): prints one JSON line"""
+    import json
+    fl, sl, p0, p1, prog = [int(x) for x in argv]
+    unsec = Interpreter(False, bool(fl))
+    unsec.setStandardOutput(V.StringOutput())
+    guard(unsec.interpret, SEQ_PRE[p0], "pre")
+    if p1 < len(SEQ_PRE):
+        guard(unsec.interpret, SEQ_PRE[p1], "pre")
+    it = Interpreter(True, bool(sl))
+    it.setStandardOutput(V.StringOutput())
+    guard(it.interpret, SEQ_PROGS[prog], "secure")
+    bad = insecure_reachable(it)
+    probes = {}
+    for t in SEQ_PROBES:
+        o = guard(it.interpret, t, "secure")
+        probes[t] = "ok" if (o.kind == "ok" and not o.value.isNull()) else o.kind
+    print(json.dumps({"ok": True, "bad": bad, "probes": probes}))
+
+
+def run_sequence_process(fl, sl, p0, p1, prog):
+    import json
+    import subprocess
+    import symex.loader as L
+    env = dict(os.environ)
+    verif = os.path.dirname(os.path.dirname(os.path.abspath(__file__)))
+    env["PYTHONPATH"] = verif + os.pathsep + os.path.join(L.repo_root(), "src")
+    code = "import sys; import harness.c09 as h; h.sequence_main(sys.argv[1:])"
+    try:
+        p = subprocess.run(["/venv/bin/python", "-c", code, str(fl), str(sl), str(p0), str(p1), str(prog)],
+                           env=env, capture_output=True, text=True, timeout=60)
+        return json.loads(p.stdout.strip().splitlines()[-1])
+    except Exception as e:
+        return {"ok": False, "error": repr(e)}
 
 
 def run_binder(ctx, cell):
